@@ -66,6 +66,8 @@ async fn episode(p: &EpParams) -> EpReport {
     }
     let mut streams = Vec::new();
     let mut open_side = Vec::new();
+    let stall_first = rng.chance(1, 3);
+    let mut stalled = false;
     for i in 0..n_streams {
         let cx = Cx::new(&w, 10 + i as u32);
         match cx.open_stream(&s, if rng.chance(1, 2) { 0 } else { 2 }).await {
@@ -76,6 +78,19 @@ async fn episode(p: &EpParams) -> EpReport {
                 }
                 open_side.push(keep_open);
                 streams.push(h);
+                // one episode in three: the first stream's client takes one more batch and then stops
+                // reading (the handler is left right behind the hand-over of that batch, for good)
+                if i == 0 && stall_first {
+                    streams[0].pause_reading();
+                    c0.publish(&t, &[Msg::tagged("stall")]).await.ok();
+                    w.settle().await;
+                    stalled = !streams[0].deliveries().is_empty();
+                    if stalled {
+                        rep.inc("a_stream_that_stopped_reading_at_the_deletion");
+                    } else {
+                        streams[0].resume_reading();
+                    }
+                }
             }
             Err(_) => {}
         }
@@ -251,6 +266,9 @@ async fn episode(p: &EpParams) -> EpReport {
     if deleted_ok {
         for (i, h) in streams.iter().enumerate() {
             let side = if open_side[i] { "req-open" } else { "req-closed" };
+            if stalled && i == 0 {
+                continue; // nobody reads it: judged below, once its client reads again
+            }
             match h.ended() {
                 None => {
                     rep.viol("C12", format!("C12:Q-del:stream-not-terminated:{}", side), format!("stream op {} still open 1 s after DeleteSubscription returned OK", h.op_id));
@@ -278,6 +296,17 @@ async fn episode(p: &EpParams) -> EpReport {
                 rep.inc("blocked_pull_pending_after_1s");
                 end_codes.push("pull=pending".into());
             }
+        }
+    }
+    // the client of the stalled stream reads again: that stream ends like the others
+    if stalled && deleted_ok {
+        streams[0].resume_reading();
+        w.advance(Duration::from_secs(1)).await;
+        w.settle().await;
+        match streams[0].ended() {
+            Some(code) if code == NOT_FOUND => rep.inc("stream_ended_not_found"),
+            Some(code) => rep.viol("C12", format!("C12:Q-del:stream-wrong-status:stalled:code={}", code), format!("a stream whose client had stopped reading ended with code {} instead of NOT_FOUND when it was read again", code)),
+            None => rep.viol("C12", "C12:Q-del:stream-not-terminated:stalled", "a stream whose client had stopped reading is still open 1 s after its client read again (its subscription was deleted meanwhile)"),
         }
     }
     // In-flight calls must not hang: decided after one virtual hour (shares Q-term with C07).
